@@ -334,3 +334,44 @@ def run_composite(rng, out, n):
             bad("evaluation-error", error=str(ex)[:200])
             continue
         out["fps"].add(fp(cfg))
+
+
+def run_crossfeed(rng, out, n):
+    """A bidirectional buffer on a real port whose fabric side routes the input of one wire to the output of a
+    *different* wire (a chain): no bit reaches itself, so the design converts, and every pad bit
+    is used by exactly one buffer cell bit."""
+    from amaranth.hdl import Module, Signal, IOPort, Cat
+    from amaranth.hdl._ir import PortDirection
+    from amaranth.back import rtlil
+    from amaranth.lib import io
+    for _ in range(n):
+        w = rng.randrange(2, 6)
+        inv = tuple(rng.random() < 0.5 for _ in range(w))
+        cfg = {"kind": "real-port-crossfeed", "width": w, "invert": list(inv), "chain": "o[k+1] = i[k], o[0] = src"}
+        pad = IOPort(w, name="pad")
+        m = Module()
+        buf = io.Buffer("io", io.SingleEndedPort(pad, invert=inv, direction="io"))
+        m.submodules.buf = buf
+        oe, src = Signal(name="oe"), Signal(name="src")
+        m.d.comb += [buf.o.eq(Cat(src, buf.i[:-1])), buf.oe.eq(oe)]       # a chain: wire k feeds wire k+1, no bit reaches itself
+        out["evaluations"] += 1
+        out["hist"]["real-port-crossfeed"] = out["hist"].get("real-port-crossfeed", 0) + 1
+        try:
+            text = rtlil.convert(m, ports={"oe": (oe, PortDirection.Input), "src": (src, PortDirection.Input), "pad": (pad, None)}, emit_src=False)
+            doc = P.parse(text)
+        except Exception as ex:
+            if exc_origin(ex) != "repo" and not isinstance(ex, P.ParseError):
+                raise
+            out["violations"].append({"mechanism": f"real-port-loop-free-crossfeed-refused:{type(ex).__name__}",
+                                      "detail": dict(config=cfg, exception=repr(ex)[:200])})
+            continue
+        uses = {}
+        for mod in doc.modules.values():
+            for c in mod.cells.values():
+                if c.type == "$tribuf":
+                    for b in c.conns["Y"]:
+                        if b[0] == "w":
+                            uses[(mod.name, b[1], b[2])] = uses.get((mod.name, b[1], b[2]), 0) + 1
+        if sorted(uses.values()) != [1] * w:
+            out["violations"].append({"mechanism": "real-port-pad-bits-not-used-exactly-once", "detail": dict(config=cfg, uses=len(uses))})
+        out["fps"].add(fp(cfg))
